@@ -204,14 +204,15 @@ def first_true(pred, lo, hi):
     return b
 
 
-def compare_law(ctx, unit, params, law, model, extra_unc=0.0):
+def compare_law(ctx, unit, params, law, model, extra_unc=0.0, rel=None):
     """extracted law of the implementation vs the model's closed-form law ({outcome: mass})"""
+    rel = LAW_REL if rel is None else rel
     ok = True
     for o in set(law.mass) | set(model):
         a, b = law.p(o), model.get(o, 0.0)
         if isinstance(o, str) and o.startswith("ERR") and a < MIN_MASS:
             continue
-        tol = LAW_REL * max(abs(a), abs(b)) + law.unc(o) + extra_unc
+        tol = rel * max(abs(a), abs(b)) + law.unc(o) + extra_unc
         if not (abs(a - b) <= tol):
             ctx.disagree(unit, params, {"atom": str(o), "model_mass": b}, {"atom": str(o), "impl_mass": a},
                          note=f"law differs by {abs(a - b):.3e} > tol {tol:.3e}")
@@ -1478,6 +1479,472 @@ def check_hierarchical(ctx, r, n):
             break
 
 
+# ------------------------------------------------------------------------------------------------------------------
+# PARAMETER-TYPE and MAGNITUDE stratum (all families): the same real numbers handed over as python int / float, numpy
+# integers, np.float64 / float32 / float16 (values are quantised to the type FIRST, so the model sees the real number the
+# object holds), and integer inputs up to and beyond 2^24, 2^31, 2^53 incl. neighbours straddling float32 / float64
+# rounding midpoints.  A typed value travels as [type name, value].
+# ------------------------------------------------------------------------------------------------------------------
+TYPEMAP = {"int": int, "float": float, "i64": np.int64, "i32": np.int32, "i16": np.int16, "i8": np.int8, "u8": np.uint8,
+           "f64": np.float64, "f32": np.float32, "f16": np.float16}
+FLOAT_T = ["float", "f64", "f32", "f16"]
+INT_T = ["int", "i64", "i32"]
+LOWP = {"f32": 2.0 ** -23, "f16": 2.0 ** -10}       # unit round-off of the reduced-precision types
+
+
+def tv(t, v):
+    """typed value [type, value] with the value quantised to what an object of that type holds"""
+    o = TYPEMAP[t](v)
+    return [t, int(o) if t in ("int", "i64", "i32", "i16", "i8", "u8") else float(o)]
+
+
+def mk(x):
+    return None if x is None else TYPEMAP[x[0]](x[1])
+
+
+def val(x):
+    return None if x is None else x[1]
+
+
+def fits(t, v):
+    lim = {"i32": 2 ** 31, "i16": 2 ** 15, "i8": 2 ** 7, "i64": 2 ** 63}
+    if t == "u8":
+        return 0 <= v < 256
+    return t not in lim or -lim[t] <= v < lim[t]
+
+
+def draw_typed_eps(r):
+    t = r.choice(FLOAT_T + FLOAT_T + ["int", "i64", "i32"])
+    if t in ("int", "i64", "i32"):
+        return tv(t, r.choice([1, 1, 2, 3]))
+    return tv(t, r.choice([0.5, 1.0, 2.0, 0.25, r.loguniform(0.05, 5.0), r.loguniform(0.05, 5.0)]))
+
+
+def eff_dtype(items):
+    """the float type numpy computes in for an array built from these typed values (python scalars are weak, an
+    all-integer array is promoted to float64 by the first float operation)"""
+    try:
+        dt = np.array([mk(i) for i in items]).dtype
+    except Exception:  # noqa
+        return "f64"
+    return {"float32": "f32", "float16": "f16"}.get(str(dt), "f64")
+
+
+def lowp_tol(t, n):
+    """(rel, abs) tolerance of the model/implementation law comparison when the implementation legitimately computes in
+    a reduced-precision type (the model is double precision); the direct ratio check is NOT relaxed"""
+    if t not in LOWP:
+        return None, (n + 2) * 2.0 ** -52
+    return 64 * LOWP[t], 8 * (n + 2) * LOWP[t]
+
+
+def typed_geom_mech(spec):
+    v = {"Geometric": "p", "GeometricTruncated": "t", "GeometricFolded": "f"}[spec["family"]]
+    return v, build_geom(v, mk(spec["epsilon"]), mk(spec["sensitivity"]), mk(spec.get("lower")), mk(spec.get("upper")))
+
+
+def typed_build(spec, which):
+    """mechanism builder for a typed spec; `which` selects the utility vector for the exponential family"""
+    fam = spec["family"]
+    if fam == "Binary":
+        return lambda rng: M.Binary(epsilon=mk(spec["epsilon"]), value0="a", value1="b", random_state=rng)
+    if fam in ("Geometric", "GeometricTruncated", "GeometricFolded"):
+        return typed_geom_mech(spec)[1]
+    if fam in ("Exponential", "PermuteAndFlip"):
+        util = [mk(z) for z in spec[which]]
+        kw = dict(epsilon=mk(spec["epsilon"]), sensitivity=mk(spec["sensitivity"]), utility=util,
+                  monotonic=spec["monotonic"])
+        if fam == "Exponential":
+            ms = [mk(z) for z in spec["measure"]] if spec.get("measure") else None
+            return lambda rng: M.Exponential(measure=ms, random_state=rng, **kw)
+        return lambda rng: M.PermuteAndFlip(random_state=rng, **kw)
+    if fam == "ExponentialCategorical":
+        ul = [[a, b, mk(z)] for a, b, z in spec["utility_list"]]
+        return lambda rng: M.ExponentialCategorical(epsilon=mk(spec["epsilon"]), utility_list=ul, random_state=rng)
+    if fam == "ExponentialHierarchical":
+        return lambda rng: M.ExponentialHierarchical(epsilon=mk(spec["epsilon"]), hierarchy=spec["hierarchy"], random_state=rng)
+    raise ValueError(fam)
+
+
+def typed_law(spec, which):
+    """exact law of the running sampler for a typed spec (`which` = "utility"/"utility_p" or the input label)"""
+    fam = spec["family"]
+    if fam == "PermuteAndFlip":
+        b = typed_build(spec, which)
+
+        def run(rng):
+            try:
+                return canon(b(rng).randomise())
+            except Pruned:
+                raise
+            except Exception as e:  # noqa
+                return "ERR:" + type(e).__name__
+        with coin_interposed():
+            return enumerate_law(run, 1e-14, 400000)[0]
+    sc = Scripted(typed_build(spec, which))
+    if fam == "Exponential":
+        return exp_law(sc, None)[0]
+    law = Law()
+    law.add_segs(extract_steps(lambda k: sc.at(k, which), 0, GRID - 1))
+    return law
+
+
+def typed_violation(ctx, sig, spec, x, xp, o, p, q, eps, mode):
+    fam = spec["family"]
+    ctx.violation(sig, f"{fam} (typed parameters {spec_brief(spec)}): P[{o}|{x}]={p!r} > e^{eps!r} * P[{o}|{xp}]={q!r} "
+                       f"(ratio {p / q if q else INF:.6g} vs bound {exp_eps(eps):.6g})",
+                  {"family": fam, "mode": "typed", "spec": spec, "x": x, "xp": xp, "atom": o, "p": p, "q": q, "eps": eps,
+                   "law_mode": mode})
+
+
+def spec_brief(spec):
+    keys = ("epsilon", "sensitivity", "lower", "upper", "measure")
+    out = {k: spec[k] for k in keys if spec.get(k) is not None}
+    for k in ("utility", "utility_p"):
+        if k in spec:
+            out[k + "_type"] = sorted({z[0] for z in spec[k]})
+    if "utility_list" in spec:
+        out["utility_type"] = sorted({z[2][0] for z in spec["utility_list"]})
+    return out
+
+
+def typed_ratio(ctx, sig, spec, x, xp, la, lb, eps):
+    bound = exp_eps(eps)
+    for a, b, xa, xb in ((la, lb, x, xp), (lb, la, xp, x)):
+        for o in a.atoms():
+            p, q = a.p(o), b.p(o)
+            if p - a.unc(o) > bound * (q + b.unc(o)) * (1 + SLACK):
+                typed_violation(ctx, sig, spec, xa, xb, o, p, q, eps, "law")
+                return False
+    return True
+
+
+def gen_typed_geom(r):
+    variant = r.choice(["p", "p", "p", "t", "t", "f"])
+    eps = draw_typed_eps(r)
+    st = r.choice(["int", "int", "i64", "i32", "i16", "i8", "u8"])
+    sens = tv(st, r.choice([1, 1, 1, 2, 3, 5]))
+    pw = r.choice([0, 10, 23, 24, 24, 25, 26, 27, 30, 31, 31, 32, 40, 52, 53, 53, 54, 60])
+    x = (1 << pw) + r.randint(-6, 9) if pw else r.randint(-50, 50)
+    if r.chance(0.3):
+        x = -x
+    d = r.choice([1, 1, val(sens), r.randint(1, val(sens))]) * r.choice([-1, 1])
+    xp = x + d
+    xt = r.choice([t for t in INT_T if fits(t, x) and fits(t, xp)])
+    spec = {"family": GEOM_NAME[variant], "epsilon": eps, "sensitivity": sens, "x": tv(xt, x), "xp": tv(xt, xp)}
+    if variant != "p":
+        w1, w2 = r.randint(0, 12), r.randint(1, 12)
+        lo, hi = min(x, xp) - w1, max(x, xp) + w2
+        bt = r.choice([t for t in INT_T if fits(t, lo) and fits(t, hi)])
+        lo_t, hi_t = tv(bt, lo), tv(bt, hi)
+        if variant == "f" and abs(hi) < 2 ** 20 and r.chance(0.5):
+            ft = r.choice(FLOAT_T)                   # half-integer / float-typed bounds, exactly representable
+            lo_t, hi_t = tv(ft, lo - r.choice([0, 0.5])), tv(ft, hi + r.choice([0, 0.5]))
+        m = r.u01()
+        if m < 0.12:
+            lo_t = ["float", -INF]
+        elif m < 0.24:
+            hi_t = ["float", INF]
+        spec["lower"], spec["upper"] = lo_t, hi_t
+    return variant, spec
+
+
+def typed_geom_sig(variant, spec):
+    big = max(abs(val(spec["x"])), abs(val(spec["xp"]))) >= 2 ** 53
+    return "C01:geometric:input-beyond-2^53" if big else GEOM_SIG[variant]
+
+
+def check_types_geom(ctx, r, lines, cases):
+    variant, spec = gen_typed_geom(r)
+    eps, sens = float(val(spec["epsilon"])), int(val(spec["sensitivity"]))
+    x, xp = val(spec["x"]), val(spec["xp"])
+    xs = {"x": mk(spec["x"]), "xp": mk(spec["xp"])}
+    try:
+        sc = Scripted(typed_build(spec, None))
+    except (TypeError, ValueError) as e:
+        ctx.count("typed_constructor_refused:" + type(e).__name__)
+        ctx.case(None)
+        return
+    s = eps / sens
+    sig = typed_geom_sig(variant, spec)
+    # (i) outputs on scripted uniforms against the model (which adds value and noise in doubles, as Python does)
+    us = [r.u01() for _ in range(4)] + [0.5 + sg * r.loguniform(1e-9, 0.4) for sg in (1, -1)]
+    lo_b, hi_b = val(spec.get("lower")), val(spec.get("upper"))
+    float_fold = variant == "f" and any(isinstance(b, float) and abs(b) != INF for b in (lo_b, hi_b))
+    if not (float_fold and max(abs(x), abs(xp)) + 40.0 / s >= 2.0 ** 51):
+        for k in ("x", "xp"):
+            gu = [g for u in us for g in guard_us(u, 8)]
+            gu = [0.25 if g == 0.5 else g for g in gu]
+            lines.append(f"geom {variant} {fl(eps)} {sens} {val(spec[k])} {bnd_tok(lo_b if lo_b is not None else -INF)} "
+                         f"{bnd_tok(hi_b if hi_b is not None else INF)} " + " ".join(fl(u) for u in gu))
+            cases.append(("gout", spec, k, us, [sc.at_u(u, xs[k]) for u in us]))
+    # (ii)+(iii) exact masses of the atoms around both inputs (plain / truncated: monotone halves); folded: whole law
+    if variant == "f":
+        if s < 0.3:
+            ctx.count("typed_fold_law_skipped")
+            ctx.case(None)
+            return
+        laws = {k: geom_full_law(sc, "f", xs[k], s)[0] for k in ("x", "xp")}
+        if any(isinstance(o, str) for k in laws for o in laws[k].mass):
+            ctx.count("geom_error_outcome_skipped")
+            return
+        typed_ratio(ctx, sig, spec, x, xp, laws["x"], laws["xp"], eps)
+        ctx.case(("typed-geom", repr(spec)))
+        return
+    if not (geom_monotone_ok(sc, xs["x"], r, 12) and geom_monotone_ok(sc, xs["xp"], r, 12)):
+        ctx.disagree("geometric.monotone", spec, "output non-increasing in u on each half", "not monotone")
+        return
+    step = 1
+    top = max(abs(x), abs(xp))
+    while top >= (1 << 53) * step:
+        step *= 2                              # beyond 2^53 the outputs live on the double grid
+    atoms = sorted({a + k * step for a in (x, xp) for k in range(-4, 5)} | {x + k for k in range(-2, 3)})
+    if variant == "t":
+        atoms = sorted(set(atoms) | {int(b) for b in (lo_b, hi_b) if abs(b) != INF})
+    try:
+        masses = {k: {o: geom_atom_mass(sc, xs[k], o) for o in atoms} for k in ("x", "xp")}
+    except ValueError:
+        ctx.count("geom_error_outcome_skipped")
+        return
+    bound = exp_eps(eps)
+    unc = 6 * CELL + 2 * CUT_CELLS * CELL
+    done = False
+    for a, b in (("x", "xp"), ("xp", "x")):
+        for o in atoms:
+            pm, qm = masses[a][o], masses[b][o]
+            if not done and pm >= MIN_MASS and pm > bound * (qm + unc) * (1 + SLACK):
+                typed_violation(ctx, sig, spec, val(spec[a]), val(spec[b]), o, pm, qm, eps, "atom")
+                done = True
+    ctx.case(("typed-geom", repr(spec)))
+    ctx.count("typed_geom_cases")
+    if top + 64 < 2 ** 53:
+        # below 2^53 double arithmetic on these integers is exact: the closed-form law applies atom by atom
+        inner = [o for o in atoms if variant == "p" or
+                 ((abs(lo_b) == INF or o > lo_b) and (abs(hi_b) == INF or o < hi_b))]
+        if inner:
+            lines.append(f"geomq {fl(eps)} {sens} " + " ".join(str(o - x) for o in inner) + " " +
+                         " ".join(str(o - xp) for o in inner))
+            cases.append(("gq", spec, inner, masses))
+
+
+def gen_typed_utils(r, n, sens, ut, mono):
+    """utility vectors as multiples of sens/4 (exactly representable in every float type used; multiples of sens for
+    integer types), neighbours within sens — half of them the tight pattern (one down, all others up by sens)"""
+    q = sens if ut in ("int", "i64", "i32") else sens / 4.0
+    u = [r.randint(-12, 12) * q if q != sens else r.randint(-4, 4) * sens for _ in range(n)]
+    if r.chance(0.5):
+        o = r.next() % n
+        up = [a + sens for a in u]
+        if not mono:
+            up[o] = u[o] - sens
+        else:
+            up[o] = u[o]
+    else:
+        steps = [0, sens] if mono else [-sens, 0, sens, q, -q]
+        up = [a + r.choice(steps) for a in u]
+    return u, up
+
+
+def check_types_exp(ctx, r, lines, cases, paf):
+    n = r.randint(2, 5 if paf else 6)
+    eps = draw_typed_eps(r)
+    st = r.choice(FLOAT_T + ["int", "i64", "i32"])
+    sraw = r.choice([1, 1, 2]) if st in ("int", "i64", "i32") else r.choice([1.0, 1.0, 2.0, 0.5])
+    sens = tv(st, sraw)
+    mono = r.chance(0.3)
+    ut = r.choice(["float", "f64", "f32", "f16", "int", "i64", "i32", "mixed"])
+    if ut in ("int", "i64", "i32") and float(val(sens)) != int(val(sens)):
+        ut = "float"
+    u, up = gen_typed_utils(r, n, float(val(sens)), ut, mono)
+
+    def ty(i):
+        return r.choice(["float", "f32", "f64", "int"]) if ut == "mixed" else ut
+    tys = [ty(i) for i in range(n)]
+    tys = [("float" if (t in ("int", "i64", "i32") and (a != int(a) or b != int(b))) else t) for t, a, b in zip(tys, u, up)]
+    spec = {"family": "PermuteAndFlip" if paf else "Exponential", "epsilon": eps, "sensitivity": sens, "monotonic": mono,
+            "utility": [tv(t, a) for t, a in zip(tys, u)], "utility_p": [tv(t, b) for t, b in zip(tys, up)], "measure": None}
+    if not paf and r.chance(0.4):
+        mt = r.choice(["float", "f64", "f32", "f16", "int", "i64"])
+        spec["measure"] = [tv(mt, r.choice([1, 1, 2, 3, 0])) for _ in range(n)]
+        if sum(val(z) for z in spec["measure"]) <= 0:
+            spec["measure"][0] = tv(mt, 1)
+    uq, upq = [float(val(z)) for z in spec["utility"]], [float(val(z)) for z in spec["utility_p"]]
+    epsq, sensq = float(val(eps)), float(val(sens))
+    if not within(uq, upq, sensq, mono):
+        ctx.case(None)
+        return
+    eff = eff_dtype(spec["utility"])
+    if spec["measure"] and eff == "f64" and False:
+        pass
+    fam = spec["family"]
+    try:
+        laws = {k: typed_law(spec, k) for k in ("utility", "utility_p")}
+    except (TypeError, ValueError, ZeroDivisionError, FloatingPointError) as e:
+        ctx.count("typed_constructor_refused:" + type(e).__name__)
+        ctx.case(None)
+        return
+    base_sig = "C01:permute-and-flip:ratio" if paf else exp_sig(spec)
+    low_sig = "C01:permute-and-flip:low-precision-utility" if paf else "C01:exponential:low-precision-utility"
+    typed_ratio(ctx, low_sig if eff in LOWP else base_sig, spec, uq, upq, laws["utility"], laws["utility_p"], epsq)
+    ctx.case(("typed-" + fam, repr(spec)))
+    ctx.count("typed_exp_cases")
+    c = {"epsilon": epsq, "sensitivity": sensq, "monotonic": mono,
+         "measure": [float(val(z)) for z in spec["measure"]] if spec["measure"] else None}
+    for k, util in (("utility", uq), ("utility_p", upq)):
+        lines.append(exp_line("paflaw" if paf else "exp", c, util))
+        cases.append(("elaw", spec, k, laws[k], eff, paf))
+
+
+def check_types_cat(ctx, r, lines, cases):
+    n = r.randint(2, 5)
+    labels = r.sample(LABEL_POOL, n)
+    eps = draw_typed_eps(r)
+    ut = r.choice(["float", "f64", "f32", "f16", "int", "i64", "i32", "mixed"])
+    ul = []
+    for i in range(n):
+        for j in range(i + 1, n):
+            t = r.choice(["float", "f32", "int", "f64"]) if ut == "mixed" else ut
+            v = r.randint(0, 4) if t in ("int", "i64", "i32") else r.randint(0, 16) * 0.25
+            ul.append([labels[i], labels[j], tv(t, v)])
+    if all(val(z[2]) == 0 for z in ul):
+        ul[0][2] = tv(ul[0][2][0], 1)
+    r.shuffle(ul)
+    spec = {"family": "ExponentialCategorical", "epsilon": eps, "utility_list": ul}
+    epsq = float(val(eps))
+    eff = "f64"
+    for z in ul:
+        if z[2][0] in LOWP and (eff == "f64" or LOWP[z[2][0]] > LOWP[eff]):
+            eff = z[2][0]
+    try:
+        sc = Scripted(typed_build(spec, None))
+    except (TypeError, ValueError, ZeroDivisionError, FloatingPointError) as e:
+        ctx.count("typed_constructor_refused:" + type(e).__name__)
+        ctx.case(None)
+        return
+    dom = []
+    for a, b, _ in ul:
+        for z in (a, b):
+            if z not in dom:
+                dom.append(z)
+    laws = {}
+    for x in dom:
+        laws[x] = Law()
+        laws[x].add_segs(extract_steps(lambda k, x=x: sc.at(k, x), 0, GRID - 1))
+    sig = "C01:categorical:low-precision-utility" if eff in LOWP else "C01:categorical:ratio"
+    ok = True
+    for x in dom:
+        for xp in dom:
+            if ok and x != xp:
+                ok = typed_ratio(ctx, sig, spec, x, xp, laws[x], laws[xp], epsq)
+    ctx.case(("typed-cat", repr(spec)))
+    ctx.count("typed_cat_cases")
+    ranks = rank_of(dom)
+    triples = [(ranks[a], ranks[b], float(val(z))) for a, b, z in ul]
+    lines.append(cat_line("catlaw", epsq, triples))
+    cases.append(("claw", spec, ranks, laws, eff))
+
+
+def check_types_binary(ctx, r, lines, cases):
+    eps = draw_typed_eps(r)
+    spec = {"family": "Binary", "epsilon": eps}
+    epsq = float(val(eps))
+    sc = Scripted(typed_build(spec, None))
+    laws = {v: binary_law(sc, v)[0] for v in ("a", "b")}
+    typed_ratio(ctx, "C01:binary:ratio", spec, "a", "b", laws["a"], laws["b"], epsq)
+    ctx.case(("typed-binary", repr(spec)))
+    lines.append(f"binarylaw {fl(epsq)}")
+    cases.append(("blaw", spec, laws))
+
+
+def check_types(ctx, r, n):
+    lines, cases = [], []
+    for i in range(n):
+        if over_time(ctx, 1.0):
+            break
+        m = r.u01()
+        if m < 0.45:
+            check_types_geom(ctx, r, lines, cases)
+        elif m < 0.5:
+            check_types_binary(ctx, r, lines, cases)
+        elif m < 0.7:
+            check_types_exp(ctx, r, lines, cases, paf=False)
+        elif m < 0.8:
+            check_types_exp(ctx, r, lines, cases, paf=True)
+        else:
+            check_types_cat(ctx, r, lines, cases)
+    outs = leanio.run_driver("Discrete", lines) if lines else []
+    for cs, out in zip(cases, outs):
+        kind, spec = cs[0], cs[1]
+        w = out.split()
+        if not out.startswith("ok"):
+            if kind == "claw" and out in ("valueError",):
+                continue
+            ctx.disagree("typed.driver", spec, out, None)
+            continue
+        if kind == "gout":
+            _, _, k, us, impl = cs
+            for i, u in enumerate(us):
+                trio = w[1 + 3 * i: 4 + 3 * i]
+                if len(set(trio)) != 1:
+                    ctx.boundary_skipped += 1
+                    continue
+                if isinstance(impl[i], str) or trio[1] == "none":
+                    ctx.count("geom_error_outcome_skipped")
+                    continue
+                if int(trio[1]) != impl[i]:
+                    ctx.disagree(spec["family"] + ".randomise", {"spec": spec, "value": spec[k], "u": u}, int(trio[1]), impl[i],
+                                 note="typed parameters / large magnitude")
+                else:
+                    ctx.trace_ok()
+        elif kind == "gq":
+            _, _, inner, masses = cs
+            pm = [b2f(int(z)) for z in w[1:]]
+            nn = len(inner)
+            ok = True
+            for vi, k in enumerate(("x", "xp")):
+                for j, o in enumerate(inner):
+                    a, mm = masses[k][o], pm[vi * nn + j]
+                    tol = LAW_REL * max(a, mm) + 8 * CELL + 2 * CUT_CELLS * CELL
+                    if ok and abs(a - mm) > tol:
+                        ctx.disagree("geometric.law", {"spec": spec, "value": spec[k]}, {"atom": o, "model_mass": mm},
+                                     {"atom": o, "impl_mass": a}, note=f"typed parameters: law differs by {abs(a - mm):.3e} > {tol:.3e}")
+                        ok = False
+            if ok:
+                ctx.trace_ok()
+        elif kind == "elaw":
+            _, _, k, law, eff, paf = cs
+            parts = out.split(" | ")
+            pmf = [b2f(int(z)) for z in (parts[0].split()[1:] if paf else parts[1].split())]
+            if any(q != q for q in pmf):
+                ctx.count("exp_nan_law_skipped")
+                continue
+            rel, ab = lowp_tol(eff, len(pmf))
+            compare_law(ctx, spec["family"] + ".law", {"spec": spec, "which": k}, law, {i: q for i, q in enumerate(pmf)},
+                        extra_unc=ab + law.cut, rel=rel)
+        elif kind == "claw":
+            _, _, ranks, laws, eff = cs
+            parts = out.split(" | ")
+            head = parts[0].split()
+            nn = int(head[3])
+            dom = [int(z) for z in head[4:4 + nn]]
+            rows = [b2f(int(z)) for z in parts[2].split()]
+            inv = {v: k for k, v in ranks.items()}
+            rel, ab = lowp_tol(eff, nn)
+            for i, d in enumerate(dom):
+                model = {inv[t]: rows[i * nn + j] for j, t in enumerate(dom)}
+                compare_law(ctx, "ExponentialCategorical.law", {"spec": spec, "value": inv[d]}, laws[inv[d]], model,
+                            extra_unc=ab, rel=rel)
+        elif kind == "blaw":
+            _, _, laws = cs
+            pf = b2f(int(w[1]))
+            compare_law(ctx, "binary.law", {"spec": spec}, laws["a"], {"a": 1 - pf, "b": pf}, extra_unc=4 * 2.0 ** -52)
+            compare_law(ctx, "binary.law", {"spec": spec}, laws["b"], {"b": 1 - pf, "a": pf}, extra_unc=4 * 2.0 ** -52)
+    for cs in cases:
+        if cs[0] == "gq":
+            ctx.sample({"family": cs[1]["family"], "typed_spec": cs[1]})
+            break
+
+
 def check(ctx):
     check_binary(ctx, ctx.fork("binary"), ctx.budget(60, 300))
     check_geometric(ctx, ctx.fork("geometric"), ctx.budget(150, 800))
@@ -1487,6 +1954,7 @@ def check(ctx):
     check_paf(ctx, ctx.fork("paf"), ctx.budget(100, 300))
     check_categorical(ctx, ctx.fork("categorical"), ctx.budget(400, 2500))
     check_hierarchical(ctx, ctx.fork("hierarchical"), ctx.budget(200, 1000))
+    check_types(ctx, ctx.fork("types"), ctx.budget(260, 2500))
 
 
 # ------------------------------------------------------------------------------------------------------------------
@@ -1531,7 +1999,33 @@ def law_of(family, params, x):
     raise ValueError(family)
 
 
+def still_fails_typed(d):
+    spec, x, xp, o, eps = d["spec"], d["x"], d["xp"], d["atom"], d["eps"]
+    fam = spec["family"]
+    if d.get("law_mode") == "atom":
+        sc = Scripted(typed_build(spec, None))
+        tx = {val(spec["x"]): mk(spec["x"]), val(spec["xp"]): mk(spec["xp"])}
+        a, b = geom_atom_mass(sc, tx[x], o), geom_atom_mass(sc, tx[xp], o)
+        return a >= MIN_MASS and a > exp_eps(eps) * (b + 6 * CELL + 2 * CUT_CELLS * CELL) * (1 + SLACK), a, b
+    if fam in ("Exponential", "PermuteAndFlip"):
+        uq = [float(val(z)) for z in spec["utility"]]
+        ka, kb = ("utility", "utility_p") if list(x) == uq else ("utility_p", "utility")
+        la, lb = typed_law(spec, ka), typed_law(spec, kb)
+    elif fam in ("Geometric", "GeometricTruncated", "GeometricFolded"):
+        sc = Scripted(typed_build(spec, None))
+        tx = {val(spec["x"]): mk(spec["x"]), val(spec["xp"]): mk(spec["xp"])}
+        s = float(val(spec["epsilon"])) / int(val(spec["sensitivity"]))
+        v = typed_geom_mech(spec)[0]
+        la, lb = geom_full_law(sc, v, tx[x], s, eta_div=16.0)[0], geom_full_law(sc, v, tx[xp], s, eta_div=16.0)[0]
+    else:
+        la, lb = typed_law(spec, x), typed_law(spec, xp)
+    a, b = la.p(o), lb.p(o)
+    return a >= MIN_MASS and a - la.unc(o) > exp_eps(eps) * (b + lb.unc(o)) * (1 + SLACK), a, b
+
+
 def still_fails(d):
+    if d.get("mode") == "typed":
+        return still_fails_typed(d)
     fam, p, x, xp, o, eps = d["family"], d["params"], d["x"], d["xp"], d["atom"], d["eps"]
     if d.get("mode") == "atom":
         v = {"Geometric": "p", "GeometricTruncated": "t"}[fam]
